@@ -1,6 +1,6 @@
 (* C04 — non-vacuity: a mismatch of the collinear form for which the auto period is returned. *)
 From Coq Require Import Reals Lra Bool.
-From SpdVerif Require Import Base.Rx Gen.Idler Gen.Poling Model.Idler Model.NM1d Model.Poling Proofs.C03_base Proofs.C04_nm Proofs.C04_poling.
+From SpdVerif Require Import Base.Rx Gen.Idler Gen.AutoCalc Model.Idler Model.NM1d Model.AutoCalc Proofs.C03_base Proofs.C04_nm Proofs.C04_poling.
 Local Open Scope R_scope.
 
 Lemma min_period_small : opp_min_period <= 1e-9.
